@@ -74,7 +74,7 @@ Definition pc_ok (p : pcT) (c : libcall) (ts : Z) : Prop :=
   | SemWaitP => c = SemWait
   | SemTryP => c = SemTryWait
   | SemWaitTP d => (exists ms, c = SemWaitT ms) /\ dl_of ts c d
-  | ThStartP ch => c = ThStart ch
+  | ThStartP ch | ThStartRet ch => c = ThStart ch
   | ThJoinP ch => c = ThJoin ch
   end.
 
